@@ -29,7 +29,9 @@ import (
 	"encoding/hex"
 	"fmt"
 	"os"
+	"runtime/pprof"
 	"sort"
+	"strings"
 	"sync"
 	"sync/atomic"
 	"time"
@@ -175,6 +177,10 @@ func leafData(fam string, i int, prev [][]byte) []byte {
 		case i == 5 && len(prev) >= 5:
 			l, rr := ref.Leaf(prev[3]), ref.Leaf(prev[4])
 			return append(append([]byte{}, l[:]...), rr[:]...)
+		case i == 7:
+			return []byte{} // empty leaf
+		case i == 10:
+			return []byte{0x01} // one byte, the interior-node prefix
 		}
 		return shaN("n", i)
 	}
@@ -331,29 +337,78 @@ type mutator[T any] struct {
 	f    func(t *T) bool // false: not applicable to the current tuple
 }
 
-func explore[T any](base T, clone func(T) T, muts []mutator[T], pairs bool, eval func(t T, names []string)) {
-	eval(clone(base), nil)
+// Mutators are copy-on-write (never write through a slice they did not allocate), so a tuple is cloned
+// by plain struct copy. names is a reused buffer: eval must copy it if it keeps it.
+// Pairs: every ordered pair (a,b); pairs that touch different components commute (same resulting
+// tuple), so the reversed order is evaluated only when both touch the same component or one of them
+// reads another component ("multi").
+func explore[T any](base T, muts []mutator[T], pairs bool, eval func(t *T, names []string)) {
+	var buf [2]string
+	comp := make([]string, len(muts))
+	for i := range muts {
+		comp[i] = compOf(muts[i].name)
+	}
+	t0 := base
+	eval(&t0, nil)
 	for a := range muts {
-		t := clone(base)
+		t := base
 		if !muts[a].f(&t) {
 			continue
 		}
-		eval(t, []string{muts[a].name})
+		buf[0] = muts[a].name
+		t1 := t
+		eval(&t1, buf[:1])
 		if !pairs {
 			continue
 		}
 		for b := range muts {
-			if a == b {
+			if a == b || (a > b && comp[a] != comp[b] && comp[a] != "multi" && comp[b] != "multi") {
 				continue
 			}
-			t2 := clone(t)
+			t2 := t
 			if !muts[b].f(&t2) {
 				continue
 			}
-			eval(t2, []string{muts[a].name, muts[b].name})
+			buf[1] = muts[b].name
+			eval(&t2, buf[:2])
 		}
 	}
 }
+
+// compOf: the tuple component a mutator writes, derived from its name; "multi" = reads or writes several.
+func compOf(name string) string {
+	has := func(p string) bool { return strings.HasPrefix(name, p) }
+	switch {
+	case strings.HasSuffix(name, "=leaf"), strings.HasSuffix(name, "leafhash"), strings.HasSuffix(name, "leafhash)"), name == "appendLeaf",
+		has("interior@"), name == "old_root=new_root", name == "new_root=old_root", name == "leaf=root", name == "leaf=p[0]":
+		return "multi"
+	case has("p["), has("drop["), has("dup["), has("swap["), has("append"), has("prepend"), has("flag["), has("h["):
+		return "seq"
+	case has("leaf"), has("value"):
+		return "leaf"
+	case has("idx="):
+		return "idx"
+	case has("size="):
+		return "size"
+	case has("root"):
+		return "root"
+	case has("old_size="):
+		return "m"
+	case has("new_size="):
+		return "n"
+	case has("old_root"):
+		return "rold"
+	case has("new_root"):
+		return "rnew"
+	case has("trail+"):
+		return "trail"
+	case has("len="):
+		return "len"
+	}
+	panic("compOf: " + name)
+}
+
+func cp[E any](x []E) []E { return append(make([]E, 0, len(x)+1), x...) }
 
 func proofMutators[T any](L int, get func(*T) *[]U, leaf func(*T) U) []mutator[T] {
 	var ms []mutator[T]
@@ -365,6 +420,7 @@ func proofMutators[T any](L int, get func(*T) *[]U, leaf func(*T) U) []mutator[T
 				if j >= len(*p) {
 					return false
 				}
+				*p = cp(*p)
 				g(&(*p)[j], t)
 				return true
 			}
@@ -396,22 +452,23 @@ func proofMutators[T any](L int, get func(*T) *[]U, leaf func(*T) U) []mutator[T
 				if j+1 >= len(*p) {
 					return false
 				}
+				*p = cp(*p)
 				(*p)[j], (*p)[j+1] = (*p)[j+1], (*p)[j]
 				return true
 			}})
 	}
 	ms = append(ms,
-		mutator[T]{"append0", func(t *T) bool { p := get(t); *p = append(*p, zeroU); return true }},
+		mutator[T]{"append0", func(t *T) bool { p := get(t); *p = append(cp(*p), zeroU); return true }},
 		mutator[T]{"appendLast", func(t *T) bool {
 			p := get(t)
 			if len(*p) == 0 {
 				return false
 			}
-			*p = append(*p, (*p)[len(*p)-1])
+			*p = append(cp(*p), (*p)[len(*p)-1])
 			return true
 		}},
 		mutator[T]{"prepend0", func(t *T) bool { p := get(t); *p = append([]U{zeroU}, *p...); return true }},
-		mutator[T]{"appendLeaf", func(t *T) bool { p := get(t); *p = append(*p, leaf(t)); return true }})
+		mutator[T]{"appendLeaf", func(t *T) bool { p := get(t); *p = append(cp(*p), leaf(t)); return true }})
 	return ms
 }
 
@@ -427,12 +484,6 @@ type incT struct {
 	size    uint32
 	proof   []U
 	root    U
-}
-
-func cloneInc(t incT) incT {
-	t.proof = append([]U{}, t.proof...)
-	t.data = append([]byte{}, t.data...)
-	return t
 }
 
 func (t *incT) leafHash() U {
@@ -481,6 +532,7 @@ func incMutators(w *world, i, s int, useData bool) []mutator[incT] {
 			if len(t.data) == 0 {
 				t.data = []byte{0x01}
 			} else {
+				t.data = cp(t.data)
 				t.data[0] ^= 1
 			}
 		} else {
@@ -492,7 +544,7 @@ func incMutators(w *world, i, s int, useData bool) []mutator[incT] {
 		if !t.useData {
 			return false
 		}
-		t.data = append(t.data, 0)
+		t.data = append(cp(t.data), 0)
 		return true
 	}})
 	for _, d := range []int{-1, 1} {
@@ -577,22 +629,28 @@ func incMutators(w *world, i, s int, useData bool) []mutator[incT] {
 	return ms
 }
 
-func evalInc(r *ctr, w *world, t incT, names []string) {
-	api := "VerifyLeafHashInclusion"
-	var err error
-	rec, pan := ev.Guard(func() {
-		if t.useData {
-			err = ver.VerifyLeafInclusion(t.data, t.idx, t.proof, t.root, t.size)
-		} else {
-			err = ver.VerifyLeafHashInclusion(t.lh, t.idx, t.proof, t.root, t.size)
+func callInc(t *incT) (err error, rec any) {
+	defer func() {
+		if x := recover(); x != nil {
+			rec = x
 		}
-	})
+	}()
+	if t.useData {
+		return ver.VerifyLeafInclusion(t.data, t.idx, t.proof, t.root, t.size), nil
+	}
+	return ver.VerifyLeafHashInclusion(t.lh, t.idx, t.proof, t.root, t.size), nil
+}
+
+func evalInc(r *ctr, w *world, t *incT, names []string) {
+	api := "VerifyLeafHashInclusion"
+	err, rec := callInc(t)
+	pan := rec != nil
 	if t.useData {
 		api = "VerifyLeafInclusion"
 	}
 	r.Eval()
 	detail := func() map[string]any {
-		d := map[string]any{"family": w.fam, "mutations": names, "leaf_index": t.idx, "tree_size": t.size, "proof": hxs(t.proof), "root": hx(t.root)}
+		d := map[string]any{"family": w.fam, "mutations": append([]string{}, names...), "leaf_index": t.idx, "tree_size": t.size, "proof": hxs(t.proof), "root": hx(t.root)}
 		if t.useData {
 			d["leaf_data"] = hex.EncodeToString(t.data)
 		} else {
@@ -712,8 +770,6 @@ type consT struct {
 	proof      []U
 }
 
-func cloneCons(t consT) consT { t.proof = append([]U{}, t.proof...); return t }
-
 func consMutators(w *world, m, n int) []mutator[consT] {
 	L := 0
 	if m >= 1 {
@@ -742,13 +798,22 @@ func consMutators(w *world, m, n int) []mutator[consT] {
 	return ms
 }
 
-func evalCons(r *ctr, w *world, t consT, names []string) {
+func callCons(t *consT) (err error, rec any) {
+	defer func() {
+		if x := recover(); x != nil {
+			rec = x
+		}
+	}()
+	return ver.VerifyConsistency(t.m, t.n, t.rOld, t.rNew, t.proof), nil
+}
+
+func evalCons(r *ctr, w *world, t *consT, names []string) {
 	const api = "VerifyConsistency"
-	var err error
-	rec, pan := ev.Guard(func() { err = ver.VerifyConsistency(t.m, t.n, t.rOld, t.rNew, t.proof) })
+	err, rec := callCons(t)
+	pan := rec != nil
 	r.Eval()
 	detail := func() map[string]any {
-		return map[string]any{"family": w.fam, "mutations": names, "old_size": t.m, "new_size": t.n, "old_root": hx(t.rOld), "new_root": hx(t.rNew), "proof": hxs(t.proof)}
+		return map[string]any{"family": w.fam, "mutations": append([]string{}, names...), "old_size": t.m, "new_size": t.n, "old_root": hx(t.rOld), "new_root": hx(t.rNew), "proof": hxs(t.proof)}
 	}
 	wt := weight(len(names), int(t.n), int(t.m))
 	if pan {
@@ -796,12 +861,19 @@ func evalCons(r *ctr, w *world, t consT, names []string) {
 	switch {
 	case m > n:
 		report(api+":old-size-greater-than-new-size-accepted", wt, detail())
+	case m == 0 && n == 0 && t.rOld == emptyU:
+		// both trees are claimed empty but new_root is not the empty root: checkable, and false
+		report(api+":old_size=0:new_size=0:new_root-not-checked-against-empty-root", wt, detail())
 	case m == 0 && t.rOld == emptyU:
 		// the empty tree is a prefix of every tree; nothing binds new_root (any verifier)
 		r.Class("vacuous_empty_old_tree")
 		witness(api+":vacuous_empty_old_tree", wt, detail())
 	case m == 0:
-		report(api+":old_size=0:old_root-not-checked-against-empty-root", wt, detail())
+		w2 := wt
+		if t.rOld == t.rNew {
+			w2 += 1 << 50 // prefer a witness that does not also go through the equal-roots shortcut
+		}
+		report(api+":old_size=0:old_root-not-checked-against-empty-root", w2, detail())
 	case t.rOld == t.rNew && m == n:
 		// a tree compared with itself: trivially consistent whatever the (unverifiable) size
 		r.Class("trivial_same_tree")
@@ -852,17 +924,6 @@ type pathT struct {
 	raw    []byte // byte-level mutations operate on the serialised form
 }
 
-func clonePath(t pathT) pathT {
-	t.value = append([]byte{}, t.value...)
-	t.elems = append([]elem{}, t.elems...)
-	t.trail = append([]byte{}, t.trail...)
-	t.root = append([]byte{}, t.root...)
-	if t.raw != nil {
-		t.raw = append([]byte{}, t.raw...)
-	}
-	return t
-}
-
 func (t *pathT) bytes() []byte {
 	if t.raw != nil {
 		return t.raw
@@ -909,11 +970,12 @@ func pathMutators(w *world, i, s int) []mutator[pathT] {
 			if len(t.value) == 0 {
 				t.value = []byte{1}
 			} else {
+				t.value = cp(t.value)
 				t.value[0] ^= 1
 			}
 			return true
 		}},
-		mutator[pathT]{"value+00", func(t *pathT) bool { t.value = append(t.value, 0); return true }},
+		mutator[pathT]{"value+00", func(t *pathT) bool { t.value = append(cp(t.value), 0); return true }},
 		mutator[pathT]{"value-last", func(t *pathT) bool {
 			if len(t.value) == 0 {
 				return false
@@ -964,6 +1026,7 @@ func pathMutators(w *world, i, s int) []mutator[pathT] {
 				if j >= len(t.elems) {
 					return false
 				}
+				t.elems = cp(t.elems)
 				g(&t.elems[j])
 				return true
 			}
@@ -999,16 +1062,17 @@ func pathMutators(w *world, i, s int) []mutator[pathT] {
 				if j+1 >= len(t.elems) {
 					return false
 				}
+				t.elems = cp(t.elems)
 				t.elems[j], t.elems[j+1] = t.elems[j+1], t.elems[j]
 				return true
 			}})
 	}
 	ms = append(ms,
-		mutator[pathT]{"appendElem(1,0)", func(t *pathT) bool { t.elems = append(t.elems, elem{1, zeroU}); return true }},
-		mutator[pathT]{"appendElem(0,leafhash)", func(t *pathT) bool { t.elems = append(t.elems, elem{0, merkle.HashLeaf(t.value)}); return true }},
-		mutator[pathT]{"trail+1", func(t *pathT) bool { t.trail = append(t.trail, 0x5a); return true }},
-		mutator[pathT]{"trail+32", func(t *pathT) bool { t.trail = append(t.trail, bytes.Repeat([]byte{0x5a}, 32)...); return true }},
-		mutator[pathT]{"trail+33", func(t *pathT) bool { t.trail = append(t.trail, bytes.Repeat([]byte{0x00}, 33)...); return true }},
+		mutator[pathT]{"appendElem(1,0)", func(t *pathT) bool { t.elems = append(cp(t.elems), elem{1, zeroU}); return true }},
+		mutator[pathT]{"appendElem(0,leafhash)", func(t *pathT) bool { t.elems = append(cp(t.elems), elem{0, merkle.HashLeaf(t.value)}); return true }},
+		mutator[pathT]{"trail+1", func(t *pathT) bool { t.trail = append(cp(t.trail), 0x5a); return true }},
+		mutator[pathT]{"trail+32", func(t *pathT) bool { t.trail = append(cp(t.trail), bytes.Repeat([]byte{0x5a}, 32)...); return true }},
+		mutator[pathT]{"trail+33", func(t *pathT) bool { t.trail = append(cp(t.trail), bytes.Repeat([]byte{0x00}, 33)...); return true }},
 		mutator[pathT]{"len=FD", func(t *pathT) bool { t.lenEnc = 1; return true }},
 		mutator[pathT]{"len=FE", func(t *pathT) bool { t.lenEnc = 2; return true }},
 		mutator[pathT]{"len=FF", func(t *pathT) bool { t.lenEnc = 3; return true }},
@@ -1016,6 +1080,7 @@ func pathMutators(w *world, i, s int) []mutator[pathT] {
 			if len(t.root) == 0 {
 				return false
 			}
+			t.root = cp(t.root)
 			t.root[0] ^= 1
 			return true
 		}},
@@ -1026,7 +1091,7 @@ func pathMutators(w *world, i, s int) []mutator[pathT] {
 			t.root = t.root[:len(t.root)-1]
 			return true
 		}},
-		mutator[pathT]{"root+00", func(t *pathT) bool { t.root = append(t.root, 0); return true }},
+		mutator[pathT]{"root+00", func(t *pathT) bool { t.root = append(cp(t.root), 0); return true }},
 		mutator[pathT]{"root=empty", func(t *pathT) bool { t.root = append([]byte{}, emptyU[:]...); return true }},
 		mutator[pathT]{"root=leafhash", func(t *pathT) bool { h := merkle.HashLeaf(t.value); t.root = h[:]; return true }})
 	for v := 0; v <= w.N; v++ {
@@ -1036,15 +1101,24 @@ func pathMutators(w *world, i, s int) []mutator[pathT] {
 	return ms
 }
 
-func evalPath(r *ctr, w *world, t pathT, names []string) {
+func callPath(path, root []byte) (val []byte, err error, rec any) {
+	defer func() {
+		if x := recover(); x != nil {
+			rec = x
+		}
+	}()
+	val, err = merkle.MerkleProve(path, root)
+	return
+}
+
+func evalPath(r *ctr, w *world, t *pathT, names []string) {
 	const api = "MerkleProve"
 	path := t.bytes()
-	var val []byte
-	var err error
-	rec, pan := ev.Guard(func() { val, err = merkle.MerkleProve(path, t.root) })
+	val, err, rec := callPath(path, t.root)
+	pan := rec != nil
 	r.Eval()
 	detail := func() map[string]any {
-		return map[string]any{"family": w.fam, "mutations": names, "path": hex.EncodeToString(path), "root": hex.EncodeToString(t.root)}
+		return map[string]any{"family": w.fam, "mutations": append([]string{}, names...), "path": hex.EncodeToString(path), "root": hex.EncodeToString(t.root)}
 	}
 	wt := weight(len(names), len(path), 0)
 	if pan {
@@ -1150,14 +1224,25 @@ func evalPath(r *ctr, w *world, t pathT, names []string) {
 
 // ------------------------------------------------------------------ main
 
-type job func()
+type job struct {
+	size int
+	f    func()
+}
 
 func main() {
 	r = ev.Start("C07", "exploration")
 	t0 := time.Now()
+	if pf := os.Getenv("VERIF_PPROF"); pf != "" {
+		f, _ := os.Create(pf)
+		_ = pprof.StartCPUProfile(f)
+		defer pprof.StopCPUProfile()
+	}
 	N := r.QT(20, 48)
 	r.Require("reject", "accept_true", "canonical_accept")
-	fams := []string{"distinct", "allequal", "pairs", "nodeish"}
+	fams := []string{"distinct", "allequal", "nodeish"}
+	if r.Thorough() {
+		fams = append(fams, "pairs")
+	}
 	var worlds []*world
 	for _, f := range fams {
 		worlds = append(worlds, buildWorld(f, N))
@@ -1174,14 +1259,14 @@ func main() {
 			for i := 0; i < s; i++ {
 				i, s := i, s
 				baseTuples += 3
-				jobs = append(jobs, func() {
+				jobs = append(jobs, job{s, func() {
 					c := newCtr()
 					defer c.merge()
 					for _, useData := range []bool{false, true} {
 						base := incT{lh: w.lh[i], data: w.data[i], useData: useData, idx: uint32(i), size: uint32(s), proof: w.inc[s][i], root: w.root[s]}
-						explore(base, cloneInc, incMutators(w, i, s, useData), true, func(t incT, n []string) { evalInc(c, w, t, n) })
+						explore(base, incMutators(w, i, s, useData), true, func(t *incT, n []string) { evalInc(c, w, t, n) })
 					}
-				}, func() {
+				}}, job{s, func() {
 					c := newCtr()
 					defer c.merge()
 					_, el, _, _, _ := parsePath(w.lpath[s][i])
@@ -1189,36 +1274,36 @@ func main() {
 					if !bytes.Equal(base.bytes(), w.lpath[s][i]) {
 						r.HarnessError("path re-serialisation differs (%s,%d,%d)", w.fam, i, s)
 					}
-					explore(base, clonePath, pathMutators(w, i, s), true, func(t pathT, n []string) { evalPath(c, w, t, n) })
+					explore(base, pathMutators(w, i, s), true, func(t *pathT, n []string) { evalPath(c, w, t, n) })
 					// byte level: every single-byte corruption (two masks) and every truncation of the serialised path
 					raw := w.lpath[s][i]
 					for off := range raw {
 						for _, mask := range []byte{0x01, 0x80} {
-							t := clonePath(base)
+							t := base
 							t.raw = append([]byte{}, raw...)
 							t.raw[off] ^= mask
-							evalPath(c, w, t, []string{fmt.Sprintf("byte[%d]^%02x", off, mask)})
+							evalPath(c, w, &t, []string{fmt.Sprintf("byte[%d]^%02x", off, mask)})
 						}
 					}
 					for l := 0; l < len(raw); l++ {
-						t := clonePath(base)
+						t := base
 						t.raw = append([]byte{}, raw[:l]...)
-						evalPath(c, w, t, []string{fmt.Sprintf("truncate=%d", l)})
+						evalPath(c, w, &t, []string{fmt.Sprintf("truncate=%d", l)})
 					}
-				})
+				}})
 			}
 			for m := 0; m <= s; m++ {
 				m, s := m, s
 				baseTuples++
-				jobs = append(jobs, func() {
+				jobs = append(jobs, job{s, func() {
 					c := newCtr()
 					defer c.merge()
 					base := consT{m: uint32(m), n: uint32(s), rOld: w.root[m], rNew: w.root[s]}
 					if m >= 1 {
 						base.proof = w.cons[s][m]
 					}
-					explore(base, cloneCons, consMutators(w, m, s), true, func(t consT, n []string) { evalCons(c, w, t, n) })
-				})
+					explore(base, consMutators(w, m, s), true, func(t *consT, n []string) { evalCons(c, w, t, n) })
+				}})
 			}
 		}
 	}
@@ -1230,18 +1315,18 @@ func main() {
 		go func() {
 			defer wg.Done()
 			for j := range ch {
-				j()
+				j.f()
 			}
 		}()
 	}
-	done := 0
+	completed := N
 	for _, j := range jobs {
 		if r.Expired() {
-			r.Capped(fmt.Sprintf("stopped after %d of %d base-tuple jobs", done, len(jobs)))
+			completed = j.size - 1
+			r.Capped(fmt.Sprintf("deadline: all tuples with size <= %d completed, sizes %d..%d cut", completed, j.size, N))
 			break
 		}
 		ch <- j
-		done++
 	}
 	close(ch)
 	wg.Wait()
@@ -1274,6 +1359,7 @@ func main() {
 	r.Assume("SHA-256 collision / second-preimage resistance",
 		"the (root, tree size) pair handed to an inclusion / consistency verifier comes from a trusted source: RFC 6962 roots do not commit to the size, so size aliasing under a wrong size is inherent to any verifier (measured as alias_size_unbound)",
 		"the empty tree is a prefix of every tree (old size 0 with the genuine empty root is vacuously consistent with anything)")
+	pprof.StopCPUProfile()
 	// canonical tuples must be accepted; if they are not and nothing false was accepted either, the run says nothing
 	if canonRejected > 0 {
 		r.Note("canonical_tuples_rejected", canonRejected)
@@ -1282,10 +1368,11 @@ func main() {
 		}
 	}
 	r.Finish(map[string]any{
-		"rule": fmt.Sprintf("families %v, every valid tuple with size <= %d (inclusion hash-API + data-API, leaf path, consistency incl. old size 0): the tuple itself, every single mutation and every ordered pair of mutations from the alphabet "+
+		"rule": fmt.Sprintf("families %v, every valid tuple with size <= %d (inclusion hash-API + data-API, leaf path, consistency incl. old size 0): the tuple itself, every single mutation and every ordered pair of mutations (commuting pairs once) from the alphabet "+
 			"{proof element xor/zero/=leaf/drop/dup/swap/append/prepend, leaf xor/neighbour/root/interior-node-as-leaf (3 encodings, with and without index+size shrink), every index 0..N+1, every size 0..N+2, root xor/zero/empty/leaf/every genuine root, "+
 			"flags flip/02/ff, trailing 1/32/33 bytes, var-uint re-encodings}; MerkleProve additionally every single-byte corruption (2 masks) and every truncation", fams, N),
-		"base_tuples": baseTuples,
-		"max_size":    N,
+		"base_tuples":        baseTuples,
+		"max_size":           N,
+		"max_size_completed": completed,
 	})
 }
